@@ -69,7 +69,7 @@ pub fn bench() {
     let (_, p) = crate::gen::corpus().into_iter().find(|(n, _)| *n == "condvar-epochs").unwrap();
     crate::rec::install_hook_observer();
     let t = std::time::Instant::now();
-    let ex = explore_prog(&p, Mode::Enum(20_000), false);
+    let ex = explore_prog(&p, Mode::Enum(std::env::var("VERIF_BENCH_CAP").ok().and_then(|s| s.parse().ok()).unwrap_or(20_000)), false);
     let fails = ex.observed.iter().filter(|(o, _)| !matches!(o.term, crate::model::MTerm::Pass)).count();
     println!("condvar-epochs: {} execs in {:.2}s, complete={}, failing outcome kinds={}", ex.executions, t.elapsed().as_secs_f64(), ex.complete, fails);
 }
